@@ -15,6 +15,14 @@ private def cellsOfFlat : List Float → List (Cell Float)
   | a :: b :: c :: d :: e :: rest => ⟨a, b, c, d, e⟩ :: cellsOfFlat rest
   | _ => []
 
+private def obinsOfFlat : List Float → List (OBin Float)
+  | a :: b :: c :: rest => ⟨a, b, if c.isNaN then none else some c⟩ :: obinsOfFlat rest
+  | _ => []
+
+private def nanF : Float := 0.0 / 0.0
+
+private def showOpts (l : List (Option Float)) : String := joinFloats (l.map fun v => v.getD nanF)
+
 private def showBins (l : List (Bin Float)) : String :=
   joinFloats (l.flatMap fun b => [b.l, b.r, b.v])
 
@@ -36,7 +44,9 @@ private def showBins (l : List (Bin Float)) : String :=
 * `rebin2 nb b… nc c… (l r v)…`       → contents after re-binning to `b` and then to `c`
 * `rebin2d n1 n2 t1 nb1 b… t2 nb2 b… (xl xr yl yr v)…` → row-major contents of a two-level histogram (level names
   `n1 n2`) re-binned to a MultiIndex target whose levels `t1`, `t2` (any order) carry the breaks
-* `combine k len₁ … len_k (l r v)…`   → combined `(l r v)…`
+* `combine k len₁ … len_k (l r v)…`   → combined `(l r v)…` (a NaN content is an unoccupied class)
+* `rebino nd nb b… (l r v)…`          → contents after `rebin_histogram(src, from_breaks(b), nan_default=nd)`, NaN for unoccupied
+* `pipe nd nb b… k len₁ … len_k (l r v)…` → every histogram re-binned to `b` (`;`-separated), then `;` the combination
 -/
 def handleCollective : List String → Option String
   | "c14" :: op :: rest =>
@@ -142,9 +152,28 @@ def handleCollective : List String → Option String
       let k ← (← rest.head?).toNat?
       let lens ← parseNats ((rest.drop 1).take k)
       let v ← parseFloats (rest.drop (1 + k))
-      let bins := binsOfFlat v
+      let bins := obinsOfFlat v
       if lens.sum ≠ bins.length then none else
-      some (showBins (combine (splitLens lens bins)))
+      some (showBins (combineOpt (splitLens lens bins)))
+    | "rebino" => do
+      -- rebino nd nb b… (l r v|NaN)…
+      let nd ← (← rest.head?).toNat?
+      let nb ← (← (rest.drop 1).head?).toNat?
+      let v ← parseFloats (rest.drop 2)
+      some (showOpts (rebinOpt (nd != 0) (obinsOfFlat (v.drop nb)) (v.take nb)))
+    | "pipe" => do
+      -- pipe nd nb b… k len₁ … len_k (l r v|NaN)…
+      let nd ← (← rest.head?).toNat?
+      let nb ← (← (rest.drop 1).head?).toNat?
+      let b ← parseFloats ((rest.drop 2).take nb)
+      let rest2 := rest.drop (2 + nb)
+      let k ← (← rest2.head?).toNat?
+      let lens ← parseNats ((rest2.drop 1).take k)
+      let bins := obinsOfFlat (← parseFloats (rest2.drop (1 + k)))
+      if lens.sum ≠ bins.length then none else
+      let hs := splitLens lens bins
+      let parts := hs.map fun h => showOpts (rebinOpt (nd != 0) h b)
+      some (";".intercalate parts ++ ";" ++ showBins (rebinCombine (nd != 0) hs b))
     | _ => none
   | _ => none
 
